@@ -4,11 +4,12 @@
 
   * `splitOn` (`strings.Split` behind `FlatFileSplit` and `AsDate`, non-empty separator): at least
     one byte per step;
-  * `stripCont` (the in-place loop of `quotedQualifierParser`): every round deletes the prefix, so
-    the text gets shorter and the loop ends by its own condition — for a NON-EMPTY prefix.  With the
-    empty prefix the Go loop does not end and the model stops with the loop condition still true
-    (`stripCont_empty_prefix_steps`); the table reader never passes it (the indent of a key line
-    is at least one column);
+  * `stripContOld` (the in-place loop of `quotedQualifierParser` BEFORE 2612fae, the old reading; the
+    loop of today is a counted loop and has no fuel): every round deletes the prefix, so the text
+    gets shorter and the loop ends by its own condition — for a NON-EMPTY prefix.  With the empty
+    prefix the old Go loop did not end and the old model stops with the loop condition still true
+    (`stripContOld_empty_prefix_steps`).  Through `stripCont_onepass_eq` these are statements about
+    the value of today's loop (`stripCont_exits`);
   * the counter loops of the ORIGIN reader (`walkChars`, `walkGroups`, `validateLines`, the reader's
     own copy of `slowLines`): `for k < 10`, `for j < 60; j += 10`, `for i < length; i += 60`;
   * `digitsAux` and `natDigitsF` (the models of `fmt.Sprintf("%9d", ·)` inside `walkLine` and of
@@ -19,6 +20,7 @@
   code; they are proved again here so that this file does not depend on a regenerated module.)
 -/
 import Gts.Lemmas.GbSafeOrigin
+import Gts.Lemmas.GbStripOnePass
 namespace Gts.GenBank
 open Gts.Pars
 
@@ -68,27 +70,27 @@ theorem findSub_bound (pat : Bytes) : ∀ (t : Bytes) (i j : Nat), findSub pat t
       simp only [List.length_cons]
       omega
 
-/-- every round of the loop removes `len(prefix) ≥ 1` bytes: with at least as much fuel as bytes
+/-- (the loop before 2612fae) every round of the loop removes `len(prefix) ≥ 1` bytes: with at least as much fuel as bytes
 the text no longer depends on the fuel -/
-theorem stripCont_fuel (pre : Bytes) (hpre : pre ≠ []) : ∀ (f f' : Nat) (t : Bytes),
-    t.length ≤ f → t.length ≤ f' → stripCont pre f t = stripCont pre f' t
+theorem stripContOld_fuel (pre : Bytes) (hpre : pre ≠ []) : ∀ (f f' : Nat) (t : Bytes),
+    t.length ≤ f → t.length ≤ f' → stripContOld pre f t = stripContOld pre f' t
   | 0, 0, _, _, _ => rfl
   | 0, f' + 1, t, h, _ => by
     have ht : t = [] := List.length_eq_zero_iff.mp (by omega)
     subst ht
-    rw [stripCont, stripCont]
+    rw [stripContOld, stripContOld]
     have : findSub (10 :: pre) [] 0 = none := by
       unfold findSub; simp
     rw [this]
   | f + 1, 0, t, _, h => by
     have ht : t = [] := List.length_eq_zero_iff.mp (by omega)
     subst ht
-    rw [stripCont, stripCont]
+    rw [stripContOld, stripContOld]
     have : findSub (10 :: pre) [] 0 = none := by
       unfold findSub; simp
     rw [this]
   | f + 1, f' + 1, t, hf, hf' => by
-    rw [stripCont, stripCont]
+    rw [stripContOld, stripContOld]
     cases hfs : findSub (10 :: pre) t 0 with
     | none => rfl
     | some i =>
@@ -96,21 +98,21 @@ theorem stripCont_fuel (pre : Bytes) (hpre : pre ≠ []) : ∀ (f f' : Nat) (t :
       have hb := findSub_bound (10 :: pre) t 0 i hfs
       have hp : 0 < pre.length := List.length_pos_iff.mpr hpre
       simp only [List.length_cons] at hb
-      apply stripCont_fuel pre hpre f f'
+      apply stripContOld_fuel pre hpre f f'
       · simp only [List.length_append, List.length_take, List.length_drop]; omega
       · simp only [List.length_append, List.length_take, List.length_drop]; omega
 
 /-- … and the loop has ENDED BY ITS OWN CONDITION: in the value returned `"\n" ++ prefix` does not
 occur any more (`bytes.Index(token, p) < 0`) -/
-theorem stripCont_exits (pre : Bytes) (hpre : pre ≠ []) : ∀ (f : Nat) (t : Bytes), t.length ≤ f →
-    findSub (10 :: pre) (stripCont pre f t) 0 = none
+theorem stripContOld_exits (pre : Bytes) (hpre : pre ≠ []) : ∀ (f : Nat) (t : Bytes), t.length ≤ f →
+    findSub (10 :: pre) (stripContOld pre f t) 0 = none
   | 0, t, h => by
     have ht : t = [] := List.length_eq_zero_iff.mp (by omega)
     subst ht
-    rw [stripCont]
+    rw [stripContOld]
     unfold findSub; simp
   | f + 1, t, hf => by
-    rw [stripCont]
+    rw [stripContOld]
     cases hfs : findSub (10 :: pre) t 0 with
     | none => exact hfs
     | some i =>
@@ -118,22 +120,29 @@ theorem stripCont_exits (pre : Bytes) (hpre : pre ≠ []) : ∀ (f : Nat) (t : B
       have hb := findSub_bound (10 :: pre) t 0 i hfs
       have hp : 0 < pre.length := List.length_pos_iff.mpr hpre
       simp only [List.length_cons] at hb
-      apply stripCont_exits pre hpre f
+      apply stripContOld_exits pre hpre f
       simp only [List.length_append, List.length_take, List.length_drop]; omega
 
-/-- with the EMPTY prefix the loop of the Go code never ends (`"\n"` is found again and again, nothing
+/-- with the EMPTY prefix the loop of the Go code before 2612fae never ended (`"\n"` is found again and again, nothing
 is deleted): the model returns the text unchanged for EVERY fuel, with the loop condition still
-true — this is the one fuelled loop of the reader model whose fuel stands for a hang.  It cannot be
-reached from `INSDCTableParser("")`: the prefix is the indent `pre + len(key) + pst ≥ 1` of the first
+true — this WAS the one fuelled loop of the reader model whose fuel stood for a hang (today's loop returns
+the token unchanged: `stripCont_nil`).  It could not be reached from `INSDCTableParser("")`: the prefix is the indent `pre + len(key) + pst ≥ 1` of the first
 key line (`firstKeyline_key`, Gts/Lemmas/GbFuel2Agree.lean). -/
-theorem stripCont_empty_prefix_steps : ∀ (f : Nat) (t : Bytes), stripCont [] f (10 :: t) = 10 :: t
+theorem stripContOld_empty_prefix_steps : ∀ (f : Nat) (t : Bytes), stripContOld [] f (10 :: t) = 10 :: t
   | 0, _ => rfl
   | f + 1, t => by
-    rw [stripCont]
+    rw [stripContOld]
     have : findSub [10] (10 :: t) 0 = some 0 := by
       unfold findSub; simp
     rw [this]
-    exact stripCont_empty_prefix_steps f t
+    exact stripContOld_empty_prefix_steps f t
+
+/-- THE VALUE OF TODAY'S LOOP holds no `"\n" ++ prefix` any more (non-empty prefix): it is the value
+of the old loop run to its end (`stripCont_onepass_eq`, `stripContOld_exits`) -/
+theorem stripCont_exits (pre : Bytes) (hpre : pre ≠ []) (t : Bytes) :
+    findSub (10 :: pre) (stripCont pre t) 0 = none := by
+  rw [stripCont_onepass_eq pre hpre t t.length (Nat.le_refl _)]
+  exact stripContOld_exits pre hpre t.length t (Nat.le_refl _)
 
 /-! ### the counter loops of the ORIGIN reader -/
 
